@@ -13,9 +13,9 @@ import (
 // compares an extracted piecewise form with them.
 
 type segSpec struct {
-	Kind string // "lin": A·v ; "pow": A·Pow(B·v + C, G) + D ; "const": A
+	Kind          string // "lin": A·v ; "pow": A·Pow(B·v + C, G) + D ; "const": A
 	A, B, C, G, D string
-	F64  bool // the Pow argument must be formed in float64
+	F64           bool // the Pow argument must be formed in float64
 }
 
 type curveSpec struct {
